@@ -1010,3 +1010,30 @@ def forward(body, start_local, through_calls=True):
                         tainted.add(c.dest[0])
                         changed = True
     return tainted, recv, (0 in tainted)
+
+
+def param_deps(body, start):
+    """parameters (1-based locals) the value may depend on, following every operand of every defining
+    statement and every argument of every defining call (over-approximate data dependence)"""
+    if isinstance(start, int):
+        work = [start]
+    elif start and start[0] in ("c", "m"):
+        work = [start[1][0]]
+    else:
+        return set()
+    seen = set()
+    params = set()
+    while work:
+        l = work.pop()
+        if l in seen:
+            continue
+        seen.add(l)
+        if 1 <= l <= body.argc:
+            params.add(l)
+        for bb, s in body.defs_of_local(l):
+            r = s[1]
+            ops = _ops_of_rvalue(r) if r[0] != "callret" else list(r[1].args)
+            for o in ops:
+                if o[0] in ("c", "m"):
+                    work.append(o[1][0])
+    return params
